@@ -8,8 +8,9 @@ package refsem
 //   - an operand location that is written between its evaluation and its use (the implementation hands cells around:
 //     `i + i++`, `print i, i++`, `a[i][i++]`, `f(f = 5)`), or a location that does not exist yet held across a store;
 //   - a store into something that is not a location (`-x = 1`, `f() = 2`, `s[0] = "x"`);
-//   - assigning to a function name, to a name bound by a pattern, or to the location such a name aliases; creating a
-//     new name inside a match body; a name bound twice in one pattern; a regex as a pattern;
+//   - assigning to a function name, to a name bound by a pattern, or to the location such a name aliases; a name bound
+//     twice in one pattern; a regex as a pattern (a name first created inside a case body lives in the case's frame and is
+//     gone afterwards: "a finished match leaves nothing behind");
 //   - changing the shape of a container inside a loop over it;
 //   - a $name that is not bound where it is read; an unset value as a member key; a NaN result; a function as a return
 //     value; built-in methods called with a number of arguments their description does not mention.
